@@ -165,6 +165,11 @@ def float_literals(rng, fmt, n_random):
         if rng.random() < 0.3 and not s.startswith("-"): s = "-" + s
         if "inf" in s or "nan" in s: continue
         out.append(s)
+    # plain integers of every length: fast paths through an integer parser wrap or overflow at 2^31/2^32/2^63/2^64 and at 10^k
+    for b in (2**31, 2**32, 2**53, 2**63, 2**64, 10**9, 10**10, 10**19, 10**20, 5294967296, 6000000000, 9999999999, 2**128):
+        for d in (-1, 0, 1): out.append(str(b + d)); out.append("+" + str(b + d)); out.append("-" + str(b + d))
+    for _ in range(n_random // 3):
+        out.append(rng.choice(["", "", "+", "-", "0", "000"]) + str(rng.randrange(10 ** rng.randint(1, 40))))
     out += ["1e4000", "1e-4000", "1e99999999999", "-1e-99999999999", "123456789e-4000", "0." + "0" * 400 + "1e401"]
     return [x.encode() for x in out]
 
